@@ -90,6 +90,14 @@ pub fn identity(p: &Pczt) -> Result<Option<[u8; 32]>, String> {
     }
 }
 
+/// The PCZT crate's own opinion only (used where an identity is needed as a classifier, not as a verdict).
+pub fn identity_own(p: &Pczt) -> Option<[u8; 32]> {
+    p.clone().into_effects().ok().map(|tx| {
+        let d = tx.digest(TxIdDigester);
+        *to_txid(tx.version(), tx.consensus_branch_id(), &d).as_ref()
+    })
+}
+
 pub fn hex_vector() -> Vec<u8> {
     let src = include_str!("/repo/pczt/tests/firmware_compat.rs");
     let at = src.find("const FIRMWARE_V1_VECTOR").expect("firmware vector constant");
